@@ -863,7 +863,7 @@ impl FlexScen {
             13..=18 => format!("cw20:{amt}:{refund}"),
             _ => format!("cw20x:{amt}:{refund}"),
         };
-        let mut bank: Vec<String> = self.pool.iter().map(|a| format!("{}:{}:{}", a, rng.below(25), rng.below(10))).collect();
+        let mut bank: Vec<String> = self.pool.iter().map(|a| format!("{}:{}:{}", a, rng.below(60), rng.below(30))).collect();
         bank.push(format!("{}:{}:{}", self.flex, rng.below(40), rng.below(6)));
         let cw20bal: Vec<String> = self.pool.iter().map(|a| format!("{}:{}", a, rng.below(25))).collect();
         format!(
